@@ -1,4 +1,5 @@
 import RCE.Proofs.SearchNegamax
+import RCE.Props.C11ref
 /-! # C11 — pruning, move ordering and re-searches never change the search result
 
 With the cache neutralised and nothing limiting the search, the score the fail-hard PVS search
